@@ -21,11 +21,15 @@ import numpy as np
 from harness.common import enc, Z, B, opt, to_zs, is_err, err_code, kids, tag
 
 PROP = 'C10'
-GENERATORS = ['gen_array', 'gen_arraypure']   # gen_arraypure: C20.Model (imported through C20's lemma files) uses Gen_arraypure
+GENERATORS = ['gen_array', 'gen_stat', 'gen_arraypure']   # gen_arraypure: C20.Model (imported through C20's lemma files) uses Gen_arraypure
 TRUSTED = [
-    'translator tools/py2gallina.py: Gen_array.iterate_chunks (used by the chunk loop of the model) is regenerated from glue/utils/array.py on every run',
-    'hand model coq/C10/Model.v of Data.compute_statistic (chunk loop, SliceSubsetState shortcut, subarray_slices, view recombination, bail-out, padding) '
-    'and of Data.compute_histogram (range sorting, closed range keep, log early returns, equal-width binning): tied to the code by correspondence only',
+    'translator tools/py2gallina.py: Gen_array.iterate_chunks (called by the translated chunk loop) is regenerated from glue/utils/array.py on every run',
+    'translator tools/gen/gen_stat.py (fail-closed, ast only): Data.compute_statistic and Data.compute_histogram of glue/core/data.py are regenerated statement by '
+    'statement into coq/gen/Gen_stat.v on every run (numpy kernels = opaque named operations); proved equal to the hand model (coq/C10/GenEquiv*.v, GenHist.v) and run '
+    'against the live code (streams stat_translated, hist_translated)',
+    'the instantiation of the opaque operations in coq/C10/Model.v (Sections GenInst, HistInst: functional n-d arrays, boolean-mask indexing, any / where / min / max, '
+    'item assignment of slice(lo, hi) boxes, exact-rational range ends with widening 0) is a hand-written model of numpy: tied to the code by correspondence only; '
+    'not translated: the bodies of the random_subset and dask blocks (compared with template texts), glue.utils.compute_statistic (the opaque kernel)',
     'numerical kernels are oracles: numpy nanmin/nanmax/nanmean/nanmedian/nansum/nanpercentile and fast_histogram; the model reducer R is abstract '
     '(assumed: depends only on the multiset of kept values of a lane, NaN for an empty lane)',
     'the masks of the selections are taken from a plain-numpy reference (ref_mask), not from the model (C04 covers mask/view agreement)',
@@ -265,7 +269,7 @@ def reducer(stat, pct, vals):
 # ------------------------------------------------------------------ one statistic case
 def case_key(c):
     return (tuple(c['shape']), tuple(c['values']), repr(c['sel']), repr(c['view']), repr(c['axis']), c['stat'], c['pct'],
-            c['finite'], c['positive'], c['ncm'])
+            c['finite'], c['positive'], c['ncm'], c.get('viewform'))
 
 
 def make_data(c):
@@ -283,6 +287,17 @@ def view_of(c):
     return None if c['view'] is None else tuple(vent(t) for t in c['view'])
 
 
+def impl_view(c):
+    """the view as it is handed to the implementation: a tuple, or (field 'viewform') the same entries as a list, or Ellipsis for None"""
+    v = view_of(c)
+    form = c.get('viewform')
+    if form == 'list' and v is not None:
+        return list(v)
+    if form == 'ellipsis' and v is None:
+        return Ellipsis
+    return v
+
+
 def axis_of(c):
     ax = c['axis']
     return tuple(ax) if isinstance(ax, list) else ax
@@ -296,7 +311,7 @@ def run_impl_stat(c, d=None):
         with warnings.catch_warnings():
             warnings.simplefilter('ignore')
             r = d.compute_statistic(c['stat'], d.id['x'], subset_state=st, axis=axis_of(c), finite=c['finite'],
-                                    positive=c['positive'], percentile=c['pct'], view=view_of(c), n_chunk_max=c['ncm'])
+                                    positive=c['positive'], percentile=c['pct'], view=impl_view(c), n_chunk_max=c['ncm'])
         return ('ok', np.asarray(r, dtype=float))
     except Exception as e:  # noqa
         return ('err', type(e).__name__, str(e)[:120])
@@ -321,7 +336,48 @@ def model_line_stat(c, x, mask):
     return enc((1, [Z(shape), view, selt, B(keep.ravel().tolist()), axt, c['ncm']]))
 
 
-def check_stat(R, c, impl, mout, x, mask, count=True):
+def gen_line_stat(c, x, mask):
+    """the same case for the TRANSLATED skeleton (run_case tag 6, coq/gen/Gen_stat.v instantiated in Model.v): the model receives the
+    per-cell facts isfinite(x), x > 0 and the finite / positive flags themselves, the axis in its Python form (None | int | tuple)"""
+    if c['view'] is None:
+        view = (3, []) if c.get('viewform') == 'ellipsis' else (0, [])
+    else:
+        view = (2 if c.get('viewform') == 'list' else 1, [vent_enc(t) for t in c['view']])
+    if c['sel'] is None:
+        selt = (0, [])
+    elif c['sel'][0] == 'slice':
+        selt = (2, [sl_enc(t) for t in c['sel'][1]])
+    else:
+        selt = (1, [B(mask.ravel().tolist())])
+    ax = c['axis']
+    axt = (0, []) if ax is None else (2, [ax]) if isinstance(ax, int) else (1, list(ax))
+    return enc((6, [Z(c['shape']), view, selt, B(np.isfinite(x).ravel().tolist()), B((x > 0).ravel().tolist()),
+                    int(bool(c['finite'])), int(bool(c['positive'])), axt, c['ncm']]))
+
+
+GEN_STATS = {'cases': 0, 'disagree': 0}
+
+
+def run_model(R, lines):
+    """R.model, or None for every line when the extracted model could not be built (the check reports the broken build itself;
+    the oracle streams still run, so that a breaking change that also breaks the build of the model gets a concrete replay)"""
+    if not R.model_available:
+        if not getattr(R, '_noted_no_model', False):
+            R._noted_no_model = True
+            R.note('the extracted model is not available (build broken): correspondence skipped, oracle streams run')
+        return [None] * len(lines)
+    return R.model(lines)
+
+
+def model_both(R, cases, ctx):
+    """hand model and translated skeleton on the same cases, one batch"""
+    lines = [model_line_stat(c, x, mask) for c, (d, x, mask) in zip(cases, ctx)]
+    glines = [gen_line_stat(c, x, mask) for c, (d, x, mask) in zip(cases, ctx)]
+    outs = run_model(R, lines + glines)
+    return outs[:len(lines)], outs[len(lines):]
+
+
+def check_stat(R, c, impl, mout, x, mask, count=True, gout=None):
     """compare implementation with model (correspondence) and with the textbook (oracle)"""
     exp, amb = textbook(x, mask, c['stat'], axis_of(c), c['finite'], c['positive'], c['pct'], view_of(c))
     nontrivial = bool(exp.size and not np.all(np.isnan(exp)))
@@ -345,14 +401,19 @@ def check_stat(R, c, impl, mout, x, mask, count=True):
         elif not same(got, exp, amb):
             bad = {'result': got.tolist(), 'expected': exp.tolist()}
             R.fail('oracle', c, bad, key=None)
-    # ---- correspondence
-    if mout is not None:
-        if is_err(mout):
+    # ---- correspondence: the hand model, and the skeleton translated from the source
+    for which, mo in (('model', mout), ('translated', gout)):
+        if mo is None:
+            continue
+        if which == 'translated':
+            GEN_STATS['cases'] += 1
+        nf = len(R.failures)
+        if is_err(mo):
             if not (impl[0] == 'err' and impl[1] == 'ValueError'):
-                R.fail('correspondence', c, {'model': 'error %s' % err_code(mout), 'impl': impl[:2]})
+                R.fail('correspondence', c, {which: 'error %s' % err_code(mo), 'impl': impl[:2]})
         elif impl[0] == 'ok':
-            osh = to_zs(kids(mout)[0])
-            lanes = [to_zs(l) for l in kids(kids(mout)[1])]
+            osh = to_zs(kids(mo)[0])
+            lanes = [to_zs(l) for l in kids(kids(mo)[1])]
             flat = x.ravel()
             if c['axis'] == []:
                 # no axis is collapsed: utils.compute_statistic returns the (masked) data itself
@@ -362,8 +423,10 @@ def check_stat(R, c, impl, mout, x, mask, count=True):
             mamb = np.array([bool(np.isnan(flat[l]).any()) if len(l) else False for l in lanes], dtype=bool).reshape(osh)
             got = impl[1]
             if tuple(osh) != got.shape or not same(got, mres, mamb):
-                R.fail('correspondence', c, {'model_shape': osh, 'impl_shape': list(got.shape),
+                R.fail('correspondence', c, {'which': which, 'model_shape': osh, 'impl_shape': list(got.shape),
                                              'model': mres.tolist(), 'impl': got.tolist()})
+        if which == 'translated' and len(R.failures) > nf:
+            GEN_STATS['disagree'] += 1
     return bad
 
 
@@ -456,12 +519,10 @@ def stream_stat_exhaustive(R):
                         cc = dict(c, ncm=ncm)
                         cases.append(cc)
                         ctx.append((d, x, mask))
-    for c, (d, x, mask) in zip(cases, ctx):
-        lines.append(model_line_stat(c, x, mask))
-    mouts = R.model(lines)
-    for c, (d, x, mask), mo in zip(cases, ctx, mouts):
+    mouts, gouts = model_both(R, cases, ctx)
+    for c, (d, x, mask), mo, go in zip(cases, ctx, mouts, gouts):
         impl = run_impl_stat(c, d)
-        check_stat(R, c, impl, mo, x, mask)
+        check_stat(R, c, impl, mo, x, mask, gout=go)
     if cases:
         R.sample({k: v for k, v in cases[len(cases) // 2].items()})
     R.stream('stat_exhaustive', cases=len(cases), exhaustive=True,
@@ -508,7 +569,9 @@ def rand_case(R, i):
             'y': [rng.randrange(0, 6) for _ in range(n)], 'sel': sel, 'view': view, 'axis': axis, 'stat': stat,
             'pct': rng.choice([0, 25, 50, 75, 100, 30, 90]) if stat == 'percentile' else None,
             'finite': rng.random() < .8, 'positive': rng.random() < .25,
-            'ncm': rng.choice([40000000, 1, 2, 3, 4, 5, 7, 8, 13, 24])}
+            'ncm': rng.choice([40000000, 1, 2, 3, 4, 5, 7, 8, 13, 24]),
+            # the view as a list of entries (converted to a tuple by the first statement) / Ellipsis instead of None
+            'viewform': ('list' if i % 7 == 3 else 'ellipsis' if i % 7 == 5 else None)}
 
 
 def intview_case(R, i):
@@ -595,13 +658,12 @@ def stream_stat_intviews(R):
         d, x, y = make_data(c)
         mask = None if c['sel'] is None else ref_mask(c['sel'], tuple(c['shape']), y)
         ctx.append((d, x, mask))
-        lines.append(model_line_stat(c, x, mask))
-    mouts = R.model(lines)
+    mouts, gouts = model_both(R, cases, ctx)
     shrunk = 0
-    for c, (d, x, mask), mo in zip(cases, ctx, mouts):
+    for c, (d, x, mask), mo, go in zip(cases, ctx, mouts, gouts):
         impl = run_impl_stat(c, d)
         nfail = len(R.failures)
-        bad = check_stat(R, c, impl, mo, x, mask)
+        bad = check_stat(R, c, impl, mo, x, mask, gout=go)
         if bad is not None and shrunk < 3:
             shrunk += 1
             small = shrink_stat(R, c)
@@ -655,13 +717,12 @@ def stream_stat_random(R):
         d, x, y = make_data(c)
         mask = None if c['sel'] is None else ref_mask(c['sel'], tuple(c['shape']), y)
         ctx.append((d, x, mask))
-        lines.append(model_line_stat(c, x, mask))
-    mouts = R.model(lines)
+    mouts, gouts = model_both(R, cases, ctx)
     shrunk = 0
-    for c, (d, x, mask), mo in zip(cases, ctx, mouts):
+    for c, (d, x, mask), mo, go in zip(cases, ctx, mouts, gouts):
         impl = run_impl_stat(c, d)
         nfail = len(R.failures)
-        bad = check_stat(R, c, impl, mo, x, mask)
+        bad = check_stat(R, c, impl, mo, x, mask, gout=go)
         if bad is not None and shrunk < 3:
             shrunk += 1
             small = shrink_stat(R, c)
@@ -849,6 +910,49 @@ def model_line_hist(c):
     return enc((3, [q_enc(xlo), q_enc(xhi), q_enc(ylo), q_enc(yhi), c['bins'][0], c['bins'][1], (0, pts)]))
 
 
+def gen_line_hist(c):
+    """the same case for the TRANSLATED compute_histogram (run_case tags 7 / 8); same coverage as model_line_hist"""
+    ln = model_line_hist(c)
+    if ln is None:
+        return None
+    npts = len(c['x'])
+    w = [Fraction(1)] * npts if c['w'] is None else [Fraction(v) / 4 for v in c['w']]
+    sel = [True] * npts if c['sel'] is None else [bool(s) for s in c['sel']]
+    xs = [finite_fr(v) for v in c['x']]
+    hasw, hassel = int(c['w'] is not None), int(c['sel'] is not None)
+    if len(c['bins']) == 1:
+        lo, hi = Fraction(c['range'][0][0]), Fraction(c['range'][0][1])
+        log = bool(c['log'] and c['log'][0])
+        if log:
+            slo, shi = sorted((lo, hi))
+            llo, lhi = (plog(lo), plog(hi)) if slo > 0 else (Fraction(0), Fraction(0))
+            lxs = [None if (x is None or x <= 0) else plog(x) for x in xs]
+        else:
+            llo, lhi, lxs = lo, hi, xs
+        pts = [(0, [optq_enc(x), optq_enc(lx), int(s), q_enc(ww)]) for x, lx, s, ww in zip(xs, lxs, sel, w)]
+        return enc((7, [int(log), int(c['log'] is not None), q_enc(lo), q_enc(hi), q_enc(llo), q_enc(lhi), c['bins'][0], hasw, hassel, (0, pts)]))
+    ys = [finite_fr(v) for v in c['y']]
+    (xlo, xhi), (ylo, yhi) = c['range']
+    pts = [(0, [optq_enc(x), optq_enc(y), int(s), q_enc(ww)]) for x, y, s, ww in zip(xs, ys, sel, w)]
+    return enc((8, [q_enc(xlo), q_enc(xhi), q_enc(ylo), q_enc(yhi), c['bins'][0], c['bins'][1], hasw, hassel, (0, pts)]))
+
+
+GEN_HIST = {'cases': 0, 'disagree': 0}
+
+
+def hist_model_both(R, cases):
+    """hand model and translated skeleton, one batch; dicts case index -> output"""
+    lines, idx, glines = [], [], []
+    for k, c in enumerate(cases):
+        ln = model_line_hist(c)
+        if ln is not None:
+            idx.append(k)
+            lines.append(ln)
+            glines.append(gen_line_hist(c))
+    outs = run_model(R, lines + glines)
+    return dict(zip(idx, outs[:len(lines)])), dict(zip(idx, outs[len(lines):])), len(lines)
+
+
 def q_dec(t):
     return Fraction(kids(t)[0][0], kids(t)[1][0])
 
@@ -861,7 +965,7 @@ def hist_defined(c):
     return True
 
 
-def check_hist(R, c, impl, mo, count=True):
+def check_hist(R, c, impl, mo, count=True, gout=None):
     defined = hist_defined(c)
     ok, first = (True, None)
     bad = None
@@ -881,20 +985,30 @@ def check_hist(R, c, impl, mo, count=True):
         R.count(hist_case_key(c), nontrivial=defined and tot != 0, stream=c['stream'], hist_bins='x'.join(map(str, c['bins'])),
                 hist_kind=('log' if c['log'] and any(c['log']) else 'lin') + ('+w' if c['w'] is not None else '') + ('+sel' if c['sel'] is not None else ''),
                 hist_range=('reversed' if any(Fraction(a) > Fraction(b) for a, b in c['range']) else 'point' if any(Fraction(a) == Fraction(b) for a, b in c['range']) else 'normal'))
-    if mo is None:
-        return bad
-    # correspondence
+    for which, m_ in (('model', mo), ('translated', gout)):
+        if m_ is None:
+            continue
+        nf = len(R.failures)
+        hist_corr(R, c, impl, m_, which)
+        if which == 'translated':
+            GEN_HIST['cases'] += 1
+            GEN_HIST['disagree'] += int(len(R.failures) > nf)
+    return bad
+
+
+def hist_corr(R, c, impl, mo, which):
+    """correspondence of one model output (hand model or translated skeleton) with the implementation"""
     if is_err(mo):
         if not (impl[0] == 'err' and impl[1] == 'ValueError'):
-            R.fail('correspondence', c, {'model': 'error', 'impl': impl[:2] if impl[0] == 'err' else impl[1].tolist()})
+            R.fail('correspondence', c, {which: 'error', 'impl': impl[:2] if impl[0] == 'err' else impl[1].tolist()})
     elif tag(mo) == 2:
         if not (impl[0] == 'ok' and impl[1].shape == tuple(c['bins']) and not impl[1].any()):
-            R.fail('correspondence', c, {'model': 'zeros', 'impl': impl[:2] if impl[0] == 'err' else impl[1].tolist()})
+            R.fail('correspondence', c, {which: 'zeros', 'impl': impl[:2] if impl[0] == 'err' else impl[1].tolist()})
     else:
         D = [q_dec(t) for t in kids(kids(mo)[0])]
         if impl[0] != 'ok' or impl[1].size != len(D):
-            R.fail('correspondence', c, {'model': [float(v) for v in D], 'impl': impl[:2] if impl[0] == 'err' else impl[1].tolist()})
-            return bad
+            R.fail('correspondence', c, {which: [float(v) for v in D], 'impl': impl[:2] if impl[0] == 'err' else impl[1].tolist()})
+            return
         H = [Fraction(float(h)) for h in impl[1].ravel().tolist()]
         if len(kids(mo)) > 1:
             E = [q_dec(t) for t in kids(kids(mo)[1])]
@@ -917,8 +1031,7 @@ def check_hist(R, c, impl, mo, count=True):
             if not amb:
                 good = (D == H)
         if not good:
-            R.fail('correspondence', c, {'model': [float(v) for v in D], 'impl': [float(v) for v in H]})
-    return bad
+            R.fail('correspondence', c, {which: [float(v) for v in D], 'impl': [float(v) for v in H]})
 
 
 RANGES = [(0, 4), (4, 0), (-2, 2), (1, 3), (0, 1), (1, 1), (-1, 4), (0, 3), ('1/2', 4), (2, '1/4'), (1, 8), (-2, 0), (0, 16), (3, 3), ('-1/2', '7/2'),
@@ -1002,18 +1115,12 @@ def stream_hist(R, safe=True):
     if not safe:
         cases = [c for c in cases if not zero_point_range(c)]
         R.note('zero-width ranges at zero skipped in-process: the child-process probe crashed')
-    lines, idx = [], []
-    for k, c in enumerate(cases):
-        ln = model_line_hist(c)
-        if ln is not None:
-            idx.append(k)
-            lines.append(ln)
-    mouts = dict(zip(idx, R.model(lines)))
+    mouts, gouts, nlines = hist_model_both(R, cases)
     for k, c in enumerate(cases):
         impl = run_impl_hist(c)
-        check_hist(R, c, impl, mouts.get(k))
+        check_hist(R, c, impl, mouts.get(k), gout=gouts.get(k))
     R.sample(cases[nexh])
-    R.stream('hist', exhaustive_cases=nexh, random_cases=N, model_cases=len(lines), exhaustive=False,
+    R.stream('hist', exhaustive_cases=nexh, random_cases=N, model_cases=nlines, exhaustive=False,
              bound='exhaustive: 15 ranges (reversed, point, ends on data values, interior edges on data values) x bins 1..7 x lin/log x weights x 3 selections '
                    'over a 20-point set with NaN/+-inf; random: 1..13 points, 1-d and 2-d (bins <= 4x4), ranges with dyadic ends, log per axis')
 
@@ -1049,18 +1156,12 @@ def stream_hist_magnitude(R):
             for lgy in (False, True):
                 cases.append({'stream': 'hist_magnitude', 'x': xs, 'y': ys, 'w': None, 'sel': None, 'range': [['-1', '3'], [p2(1, e), p2(1, e + d)]],
                               'bins': [2, d], 'log': [False, lgy]})
-    lines, idx = [], []
-    for i, c in enumerate(cases):
-        ln = model_line_hist(c)
-        if ln is not None:
-            idx.append(i)
-            lines.append(ln)
-    mouts = dict(zip(idx, R.model(lines)))
+    mouts, gouts, nlines = hist_model_both(R, cases)
     for i, c in enumerate(cases):
         impl = run_impl_hist(c)
-        check_hist(R, c, impl, mouts.get(i))
+        check_hist(R, c, impl, mouts.get(i), gout=gouts.get(i))
     R.sample(cases[len(cases) // 2])
-    R.stream('hist_magnitude', cases=len(cases), model_cases=len(lines), exhaustive=True,
+    R.stream('hist_magnitude', cases=len(cases), model_cases=nlines, exhaustive=True,
              bound='lower end m*2**e, upper end m\'*2**(e+d) for e in %s, d in {1,2,3,4,6,8}; data = {1,3,5,7}*2**(e-1..e+d+1) plus both range ends (the upper one three '
                    'times), NaN, +-inf; bins 1..7; linear and log; reversed ranges, weights and selections rotate; 2-d with the y axis across the same magnitudes' % (exps,))
 
@@ -1286,15 +1387,18 @@ def stream_corpus(R):
         mask = None if c['sel'] is None else ref_mask(c['sel'], tuple(c['shape']), y)
         ctx.append((d, x, mask))
         lines.append(model_line_stat(c, x, mask))
+    glines = [gen_line_stat(c, x, mask) for c, (d, x, mask) in zip(st, ctx)]
     hl, hidx = [], []
     for i, c in enumerate(hi):
         ln = model_line_hist(c)
         if ln is not None:
             hidx.append(i)
             hl.append(ln)
-    outs = R.model(lines + hl)
-    for c, (d, x, mask), mo in zip(st, ctx, outs[:len(lines)]):
-        check_stat(R, c, run_impl_stat(c, d), mo, x, mask)
+    outs = run_model(R, lines + hl + glines)
+    gouts = outs[len(lines) + len(hl):]
+    outs = outs[:len(lines) + len(hl)]
+    for c, (d, x, mask), mo, go in zip(st, ctx, outs[:len(lines)], gouts):
+        check_stat(R, c, run_impl_stat(c, d), mo, x, mask, gout=go)
     hm = dict(zip(hidx, outs[len(lines):]))
     for i, c in enumerate(hi):
         check_hist(R, c, run_impl_hist(c), hm.get(i))
@@ -1433,6 +1537,9 @@ def stream_malformed(R):
         if got not in (want if isinstance(want, tuple) else (want,)):
             R.fail('correspondence', {'stream': 'malformed', 'what': label}, {'impl': got, 'expected': want})
     # model side: malformed wire input gives the explicit error value
+    if not R.model_available:
+        R.stream('malformed', cases=n, exhaustive=True, bound='model not available')
+        return
     out = R.model(['(9 1 2)', '(1 (0 1) (0) (0))'])
     for o in out:
         n += 1
@@ -1451,8 +1558,16 @@ def run(R):
     stream_stat_exhaustive(R)
     stream_stat_random(R)
     stream_stat_intviews(R)
+    R.stream('stat_translated', cases=GEN_STATS['cases'], disagreements=GEN_STATS['disagree'], exhaustive=True,
+             bound='every case of the streams corpus, stat_exhaustive (exhaustive small scope), stat_random and stat_intviews (seeded random) is also run '
+                   'through the skeleton TRANSLATED from the current source (coq/gen/Gen_stat.v: compute_statistic, instantiated in coq/C10/Model.v, '
+                   'run_case tag 6) and compared with the live result: shape and, per output lane, the reducer applied to exactly the kept cells')
     stream_hist(R, safe)
     stream_hist_magnitude(R)
+    R.stream('hist_translated', cases=GEN_HIST['cases'], disagreements=GEN_HIST['disagree'], exhaustive=True,
+             bound='every histogram case the hand model covers (streams hist: exhaustive grid + seeded random, hist_magnitude) is also run through the '
+                   'skeleton TRANSLATED from the current source (coq/gen/Gen_stat.v: compute_histogram, instantiated in coq/C10/Model.v, run_case tags 7 / 8: '
+                   '1-d incl. log, weights, selections, reversed and zero-width ranges; 2-d linear) and compared with the live result')
     stream_viewers(R)
     stream_malformed(R)
 
